@@ -163,7 +163,7 @@ class Gen:
         else:
             k = r.choices(['add', 'sub', 'mul', 'div', 'neg', 'pow', 'fn', 'dx', 'inner', 'tr', 'det', 'norm',
                            'vidx', 'midx', 'div_', 'lap', 'dt'],
-                          weights=[5, 3, 7, 2, 2, 2, 4, 5, 4, 1, 2, 1, 2, 2, 2, 2, 1])[0]
+                          weights=[5, 3, 7, 2, 2, 2, 4, 5, 4, 2, 2, 1, 2, 2, 2, 2, 1])[0]
         if self.kind == 'spacetime' and not diff and r.random() < 0.25:
             k = 'dt'
         if k == 'leaf':
@@ -193,6 +193,10 @@ class Gen:
             n = r.choice([d, d, self.g, 2, 3])
             return (r.choice(['inner({0}, {1})', 'dot({0}, {1})']), self.Vn(depth - 1, n), self.Vn(depth - 1, n))
         if k == 'tr':
+            if r.random() < 0.4:
+                m_, n_ = r.choice([1, 2, 3]), r.choice([1, 2, 3])
+                return (r.choice(['inner({0}, {1})', '({0})[%d, %d]' % (r.randrange(m_), r.randrange(n_))]),
+                        self.Mmn(depth - 1, m_, n_), self.Mmn(depth - 1, m_, n_))
             return ('tr({0})', self.Mn(depth - 1, d))
         if k == 'det':
             return ('det({0})', self.Mn(min(depth - 1, 1), r.choice([d, 2])))
@@ -280,7 +284,8 @@ class Gen:
         if k == 'sdiv':
             return ('({0} / {1})', self.Vn(depth - 1, n), self.S(depth - 1))
         if k == 'matvec':
-            return (r.choice(['dot({0}, {1})', '({0} @ {1})']), self.Mn(depth - 1, n), self.Vn(depth - 1, n))
+            kk = r.choice([n, n, 1, 2, 3])
+            return (r.choice(['dot({0}, {1})', '({0} @ {1})']), self.Mmn(depth - 1, n, kk), self.Vn(depth - 1, kk))
         if k == 'grad':
             if self.kind == 'spacetime':
                 # grad uses the space dimensions only: length d-1, pad with a time derivative
@@ -297,6 +302,41 @@ class Gen:
             return ('curl({0})', self.Vn(1, 3, diff=True))
         raise AssertionError(k)
 
+    # -- m x n matrices, m != n allowed (products of rectangular factors, Jac of a surface) ---------
+    def lit_matrix(self, depth, m, n):
+        return ('as_matrix([' + ', '.join('[' + ', '.join('{%d}' % (i * n + j) for j in range(n)) + ']'
+                                          for i in range(m)) + '])',) + tuple(
+            self.S(max(depth - 1, 0)) for _ in range(m * n))
+
+    def Mmn(self, depth, m, n):
+        r = self.rng
+        d, g = self.d, self.g
+        if m == n and r.random() < 0.5:
+            return self.Mn(depth, n)
+        leaves = []
+        if (m, n) == (g, d) and self.kind in ('volume', 'surface', 'boundary'):
+            leaves += ['jac']
+        if (m, n) == (d, g) and self.kind in ('volume', 'surface', 'boundary'):
+            leaves += ['jacT']
+        if depth <= 0 or r.random() < 0.3:
+            if leaves and r.random() < 0.7:
+                k = r.choice(leaves)
+                return self.use('jac') if k == 'jac' else ('({0}).T', self.use('jac'))
+            return self.lit_matrix(depth, m, n)
+        k = r.choice(['lit', 'mm', 'mm', 'T', 'outer', 'add', 'smul'])
+        if k == 'lit':
+            return self.lit_matrix(depth, m, n)
+        if k == 'mm':
+            kk = r.choice([1, 2, 3])
+            return (r.choice(['dot({0}, {1})', '({0} @ {1})']), self.Mmn(depth - 1, m, kk), self.Mmn(depth - 1, kk, n))
+        if k == 'T':
+            return ('({0}).T', self.Mmn(depth - 1, n, m))
+        if k == 'outer':
+            return ('outer({0}, {1})', self.Vn(depth - 1, m), self.Vn(depth - 1, n))
+        if k == 'add':
+            return (r.choice(['({0} + {1})', '({0} - {1})']), self.Mmn(depth - 1, m, n), self.Mmn(depth - 1, m, n))
+        return ('({0} * {1})', self.S(depth - 1), self.Mmn(depth - 1, m, n))
+
     # -- n x n matrices ------------------------------------------------------------
     def Mn(self, depth, n):
         r = self.rng
@@ -312,10 +352,17 @@ class Gen:
             return ('as_matrix([' + ', '.join('[' + ', '.join('{%d}' % (i * n + j) for j in range(n)) + ']'
                                               for i in range(n)) + '])',) + tuple(
                 self.S(max(depth - 1, 0)) for _ in range(n * n))
-        opts = ['lit', 'mm', 'T', 'inv', 'outer', 'add', 'smul']
+        opts = ['lit', 'mm', 'T', 'inv', 'outer', 'add', 'smul', 'mmr', 'mmr']
         if n == d and self.kind != 'spacetime':
             opts += ['gradv', 'hess', 'hess']
+        if n == d and g == d + 1:
+            opts += ['metric', 'metric', 'metric']
         k = r.choice(opts)
+        if k == 'mmr':
+            kk = r.choice([x for x in (1, 2, 3) if x != n])
+            return (r.choice(['dot({0}, {1})', '({0} @ {1})']), self.Mmn(depth - 1, n, kk), self.Mmn(depth - 1, kk, n))
+        if k == 'metric':
+            return (r.choice(['dot(({0}).T, {0})', '(({0}).T @ {0})']), self.use('jac'))
         if k == 'lit':
             return ('as_matrix([' + ', '.join('[' + ', '.join('{%d}' % (i * n + j) for j in range(n)) + ']'
                                               for i in range(n)) + '])',) + tuple(
@@ -412,7 +459,23 @@ class Gen:
             body = ('({0} * {1})', t, (bad, inner))
         else:
             body = self.integrand_with_bfuns(self.S(depth))
-        lines = self.header_code()
+        lets = []
+        if stream in ('grammar', 'mirror') and self.ncomp is None and r.random() < 0.35:
+            # let-bound tensor variables: the (possibly rectangular) tensor node is only expanded by the
+            # _to_literal_vec_mat pass of finalize, where the oracle sees it before and after
+            for q in range(r.randint(1, 2)):
+                m_, n_ = r.choice([1, 2, 3]), r.choice([1, 2, 3])
+                if r.random() < 0.75:
+                    kk = r.choice([1, 2, 3])
+                    te = (r.choice(['dot({0}, {1})', '({0} @ {1})']), self.Mmn(1, m_, kk), self.Mmn(1, kk, n_))
+                    use = r.choice(['T%d[%d, %d]' % (q, r.randrange(m_), r.randrange(n_)), 'inner(T%d, T%d)' % (q, q)])
+                else:
+                    kk = r.choice([1, 2, 3])
+                    te = ('dot({0}, {1})', self.Mmn(1, m_, kk), self.Vn(1, kk))
+                    use = 'T%d[%d]' % (q, r.randrange(m_))
+                lets.append("T%d = V.let('T%d', %s)" % (q, q, render(te)))
+                body = ('({0} + %s)' % use, body)
+        lines = self.header_code() + lets
         meas = self.measure()
         if r.random() < 0.08:
             lines.append('V.add(%s)' % render(body))         # no measure at all
@@ -428,6 +491,24 @@ LIBRARY = [
     'V = mass_vf(1)', 'V = mass_vf(2)', 'V = mass_vf(3)', 'V = stiffness_vf(1)', 'V = stiffness_vf(2)',
     'V = stiffness_vf(3)', 'V = heat_st_vf(2)', 'V = heat_st_vf(3)', 'V = wave_st_vf(2)', 'V = wave_st_vf(3)',
     'V = divdiv_vf(2)', 'V = divdiv_vf(3)', 'V = L2functional_vf(2)', 'V = L2functional_vf(3, physical=True)',
+    # rectangular factors: 2x3 @ 3x2, 1xn @ nx1, Jac^T Jac of a surface, kept un-indexed in a variable and indexed directly
+    'V = VForm(2)\nu, v = V.basisfuns()\nf = V.input("f")\ng = V.input("g", shape=(2,))\n'
+    'A = as_matrix([[f, g[0], u], [g[1], v, 2.0]])\nB = as_matrix([[u, f], [v, g[0]], [g[1], 0.5]])\n'
+    'P = V.let("P", dot(A, B))\nQ = V.let("Q", dot(B, A))\nV.add((P[0, 1] * Q[2, 0] + tr(dot(A, B)) + inner(Q, Q)) * dx)',
+    'V = VForm(3)\nu, v = V.basisfuns()\ng = V.input("g", shape=(3,))\n'
+    'R1 = as_matrix([[g[0], g[1], g[2]]])\nC1 = as_matrix([[u], [v], [g[0]]])\n'
+    'S1 = V.let("S1", dot(R1, C1))\nO1 = V.let("O1", dot(C1, R1))\nW1 = V.let("W1", dot(R1, grad(u)))\n'
+    'V.add((S1[0, 0] * v + O1[2, 1] * u + W1[0] * v) * dx)',
+    'V = VForm(2, geo_dim=3)\nu, v = V.basisfuns()\nG = V.let("G", dot(V.Jac.T, V.Jac))\n'
+    'V.add((G[0, 1] * u * v + det(dot(V.Jac.T, V.Jac)) * u * v + inner(G, G) * u) * ds)',
+    'V = VForm(1, geo_dim=2)\nu, v = V.basisfuns()\nG = V.let("G", dot(V.Jac.T, V.Jac))\nH = V.let("H", dot(V.Jac, V.Jac.T))\n'
+    'V.add((G[0, 0] + H[1, 0]) * u * v * ds)',
+    # parametric and physical derivatives of quotients and products of input fields and basis functions
+    'V = VForm(2)\nu, v = V.basisfuns()\nf = V.input("f")\nV.add(Dx(f / u, 0, parametric=True) * Dx(u * f, 1, parametric=True) * v * dx)',
+    'V = VForm(2)\nu, v = V.basisfuns()\nf = V.input("f")\ng = V.input("g", shape=(2,))\n'
+    'V.add(inner(grad(f * u / (g[0] + 2.0), parametric=True), grad(v / (f + 3.0), parametric=True)) * dx)',
+    'V = VForm(3, arity=1)\nu = V.basisfuns()\nf = V.input("f")\nV.add((Dx(u / f, 2, parametric=True) + Dx((u * f) / (f * f + 1.0), 1)) * dx)',
+    'V = VForm(2, geo_dim=3, arity=1)\nu = V.basisfuns()\nf = V.input("f")\nV.add(Dx(f / (u + 2.0), 1, parametric=True) * ds)',
     # the same difference / quotient / cross product in both operand orders (merge only if identical)
     'V = VForm(2)\nu, v = V.basisfuns()\nf = V.input("f")\ng = V.input("g", shape=(2,))\n'
     'V.add(((f * u - g[0] * v) * g[1] + (g[0] * v - f * u) * f) * dx)',
